@@ -896,114 +896,200 @@ func checkJoinRecordTimes(c *core.Ctx, rule string) {
 	p := c.Prog
 	total := 0
 	for _, typ := range []string{"StreamJoin", "OuterJoin"} {
-		for _, m := range []string{"receiveRecord", "produceUnmatched"} {
-			fn := p.Func("execution/nodes", "(*"+typ+")."+m)
-			if fn == nil {
-				continue
+		root := p.Func("execution/nodes", "(*"+typ+").receiveRecord")
+		if root == nil {
+			continue
+		}
+		rootKey := "execution/nodes.(*" + typ + ").receiveRecord"
+		c.SawFunc(rootKey)
+		rootRec := ""
+		for _, f := range root.Decl.Type.Params.List {
+			for _, nm := range f.Names {
+				if t := root.Info().TypeOf(f.Type); t != nil && strings.HasSuffix(t.String(), "execution.Record") {
+					rootRec = nm.Name
+				}
 			}
-			key := "execution/nodes.(*" + typ + ")." + m
-			c.SawFunc(key)
-			info := fn.Info()
-			// the record being processed: the parameter of type execution.Record
-			var recObj types.Object
-			for _, f := range fn.Decl.Type.Params.List {
-				for _, nm := range f.Names {
-					if t := info.TypeOf(f.Type); t != nil && strings.HasSuffix(t.String(), "execution.Record") {
-						recObj = info.Defs[nm]
+		}
+		if rootRec == "" {
+			c.Unknown(rule, rootKey, root.Decl.Pos(), "no execution.Record parameter")
+			continue
+		}
+		// every place a record is built while this record is processed: in the function, in the helpers it hands
+		// the record to, in the callbacks they pass on. Each is interpreted with the stored time it compares with
+		// earlier than / equal to / later than the record's: the stamp must be the record's time, or a time that was
+		// found to be not earlier.
+		seenUnit := map[string]bool{}
+		n := 0
+		for _, bf := range helperClosureBound(p, root) {
+			bf := bf
+			info := bf.fn.Info()
+			// the processed record's event time, as this function sees it
+			var rTimes []string
+			if bf.fn == root {
+				rTimes = []string{rootRec + ".EventTime"}
+			} else {
+				for prm, to := range bf.binds {
+					switch to {
+					case rootRec:
+						rTimes = append(rTimes, prm+".EventTime")
+					case rootRec + ".EventTime":
+						rTimes = append(rTimes, prm)
 					}
 				}
 			}
-			if recObj == nil {
-				c.Unknown(rule, key, fn.Decl.Pos(), "no execution.Record parameter")
-				continue
+			type unit struct {
+				lit *ast.FuncLit // nil: the function itself
 			}
-			recTime := recObj.Name() + ".EventTime"
-			// variables that start from the record's time and are only raised
-			raised := map[types.Object]string{} // obj -> "" ok / reason
-			ast.Inspect(fn.Decl.Body, func(n ast.Node) bool {
-				as, ok := n.(*ast.AssignStmt)
-				if !ok || len(as.Lhs) != 1 || len(as.Rhs) != 1 {
-					return true
-				}
-				id, ok := as.Lhs[0].(*ast.Ident)
-				if !ok {
-					return true
-				}
-				if t := info.TypeOf(id); t == nil || t.String() != "time.Time" {
-					return true
-				}
-				if as.Tok == token.DEFINE {
-					if obj := info.Defs[id]; obj != nil {
-						if core.ExprStr(as.Rhs[0]) == recTime {
-							raised[obj] = ""
-						} else {
-							raised[obj] = "starts from " + core.ExprStr(as.Rhs[0])
-						}
-					}
-				}
-				return true
-			})
-			core.WalkStack(fn.Decl.Body, func(n ast.Node, stack []ast.Node) bool {
-				as, ok := n.(*ast.AssignStmt)
-				if !ok || as.Tok != token.ASSIGN || len(as.Lhs) != 1 || len(as.Rhs) != 1 {
-					return true
-				}
-				id, ok := as.Lhs[0].(*ast.Ident)
-				if !ok {
-					return true
-				}
-				obj := info.Uses[id]
-				if _, tracked := raised[obj]; !tracked {
-					return true
-				}
-				// must sit directly in `if RHS.After(v) { v = RHS }`
-				okRaise := false
-				for i := len(stack) - 1; i >= 0; i-- {
-					if is, ok := stack[i].(*ast.IfStmt); ok {
-						want := core.ExprStr(as.Rhs[0]) + ".After(" + id.Name + ")"
-						want2 := id.Name + ".Before(" + core.ExprStr(as.Rhs[0]) + ")"
-						if cs := core.ExprStr(is.Cond); cs == want || cs == want2 {
-							okRaise = true
-						}
-						break
-					}
-				}
-				if !okRaise && raised[obj] == "" {
-					raised[obj] = fmt.Sprintf("is overwritten with %s at %s without being compared", core.ExprStr(as.Rhs[0]), p.Pos(as.Pos()))
-				}
-				return true
-			})
-			n := 0
-			ast.Inspect(fn.Decl.Body, func(nd ast.Node) bool {
+			var units []unit
+			core.WalkStack(bf.fn.Decl.Body, func(nd ast.Node, stack []ast.Node) bool {
 				call, ok := nd.(*ast.CallExpr)
 				if !ok || len(call.Args) != 3 || !strings.HasSuffix(p.CalleeName(info, call), "execution.NewRecord") {
 					return true
 				}
-				n++
-				total++
-				arg := core.Unparen(call.Args[2])
-				ckey := fmt.Sprintf("%s/record %d (retraction=%s)", key, n, core.ExprStr(call.Args[1]))
-				bad := ""
-				switch {
-				case core.ExprStr(arg) == recTime:
-				default:
-					id, isId := arg.(*ast.Ident)
-					why, tracked := "", false
-					if isId {
-						why, tracked = raised[info.Uses[id]]
-					}
-					if !tracked {
-						bad = fmt.Sprintf("the emitted record is stamped with %s, which does not depend on the event time of the record being processed: a stored event time can lie at or below a watermark the join has already forwarded, which makes the emitted record late", core.ExprStr(arg))
-					} else if why != "" {
-						bad = fmt.Sprintf("the emitted record is stamped with %s, which %s: it can be older than the record being processed and lie behind a forwarded watermark", id.Name, why)
+				u := unit{core.InnermostFuncLit(stack)}
+				for _, e := range units {
+					if e == u {
+						return true
 					}
 				}
-				c.Decide(bad == "", rule, ckey, call.Pos(), 1, "event time ≥ the processed record's event time", bad)
+				units = append(units, u)
 				return true
 			})
+			for _, u := range units {
+				sig := fmt.Sprintf("%s/%v/%v", p.FName(bf.fn), u.lit != nil && true, rTimes)
+				if u.lit != nil {
+					sig += fmt.Sprint(u.lit.Pos())
+				}
+				if seenUnit[sig] {
+					continue
+				}
+				seenUnit[sig] = true
+				if len(rTimes) == 0 {
+					n++
+					total++
+					c.Bad(rule, fmt.Sprintf("%s/record %d", rootKey, n), bf.fn.Decl.Pos(), 1, p.FName(bf.fn)+" builds a record while a record is processed but is not handed that record (or its event time): the stamp cannot depend on it")
+					continue
+				}
+				isR := func(s string) bool {
+					for _, r := range rTimes {
+						if s == r {
+							return true
+						}
+					}
+					return false
+				}
+				type stamp struct {
+					pos  token.Pos
+					flag string
+					bad  string
+				}
+				stamps := map[token.Pos]*stamp{}
+				var order []token.Pos
+				cases := 0
+				var runErr error
+				for _, rel := range []absint.Rel{absint.LT, absint.EQ, absint.GT} {
+					rel := rel
+					in := newInterp(p, bf.fn)
+					in.MaxPaths = 4000
+					in.Hooks.Assert = assertOK
+					in.Hooks.Loop = func(st *absint.State, loop ast.Stmt) *absint.LoopSpec {
+						return &absint.LoopSpec{Cases: []string{"x"}, MaxIter: 1, MinIter: 1, RefStep: func(ref, cs string) string { return ref }}
+					}
+					in.Hooks.Call = chainCall(func(st *absint.State, call *ast.CallExpr, callee string, recv absint.Val, args []absint.Val) (absint.Val, bool) {
+						switch callee {
+						case "time.Time.After", "time.Time.Before", "time.Time.Equal":
+							if len(args) != 1 || recv == nil {
+								return nil, false
+							}
+							a, b := recv.Canon(), args[0].Canon()
+							// rel is (stored time) rel (record's time)
+							r := rel
+							switch {
+							case isR(b) && !isR(a):
+								st.Emit("COMPARED", call.Pos(), recv)
+							case isR(a) && !isR(b):
+								st.Emit("COMPARED", call.Pos(), args[0])
+								r = map[absint.Rel]absint.Rel{absint.LT: absint.GT, absint.GT: absint.LT, absint.EQ: absint.EQ}[rel]
+							default:
+								return nil, false
+							}
+							switch callee {
+							case "time.Time.After":
+								return absint.Bool(r == absint.GT), true
+							case "time.Time.Before":
+								return absint.Bool(r == absint.LT), true
+							default:
+								return absint.Bool(r == absint.EQ), true
+							}
+						case "execution.NewRecord":
+							if len(args) == 3 {
+								st.Emit("STAMP", call.Pos(), args[1], args[2])
+							}
+							return nil, false
+						case "value:produce":
+							return absint.Nil{}, true
+						}
+						if _, ok := isTreeOp(callee); ok {
+							return absint.S("treeop"), true
+						}
+						return nil, false
+					}, recordCtorHook, errorfHook)
+					var outs []*absint.Outcome
+					var err error
+					if u.lit != nil {
+						outs, err = runLit(in, u.lit, nil, "")
+					} else {
+						outs, err = runDecl(in, bf.fn, nil, "")
+					}
+					if err != nil {
+						runErr = err
+						break
+					}
+					for _, o := range outs {
+						cases++
+						compared := map[string]bool{}
+						for _, e := range o.Events {
+							switch e.Name {
+							case "COMPARED":
+								compared[e.Args[0].Canon()] = true
+							case "STAMP":
+								sp := stamps[e.Pos]
+								if sp == nil {
+									sp = &stamp{pos: e.Pos, flag: e.Args[0].Canon()}
+									stamps[e.Pos] = sp
+									order = append(order, e.Pos)
+								}
+								t := e.Args[1].Canon()
+								switch {
+								case isR(t):
+								case compared[t] && rel != absint.LT:
+								case compared[t]:
+									sp.bad = fmt.Sprintf("the emitted record is stamped with %s although it was found to be earlier than the event time of the record being processed: it can lie behind a forwarded watermark", t)
+								default:
+									sp.bad = fmt.Sprintf("the emitted record is stamped with %s, which does not depend on the event time of the record being processed: a stored event time can lie at or below a watermark the join has already forwarded, which makes the emitted record late", t)
+								}
+							}
+						}
+					}
+				}
+				if runErr != nil {
+					n++
+					total++
+					c.Unknown(rule, fmt.Sprintf("%s/record %d", rootKey, n), bf.fn.Decl.Pos(), runErr.Error())
+					continue
+				}
+				sort.Slice(order, func(i, j int) bool { return order[i] < order[j] })
+				for _, pos := range order {
+					sp := stamps[pos]
+					n++
+					total++
+					ckey := fmt.Sprintf("%s/record %d (retraction=%s)", rootKey, n, sp.flag)
+					c.Decide(sp.bad == "", rule, ckey, pos, cases, "event time ≥ the processed record's event time", sp.bad)
+				}
+			}
 		}
 	}
-	c.Floor(rule, 6, "records emitted by StreamJoin and OuterJoin while processing a record")
+	c.Floor(rule, 4, "records emitted by StreamJoin and OuterJoin while processing a record")
 	_ = total
 }
 
